@@ -98,7 +98,8 @@ class EuclideanRingTraits(IntegralDomainTraits):
     def lcm(cls, a, b):
         """Returns the least common multiple of a and b.
         """
-        return a * b / cls.gcd(a, b)
+        # (exact: the gcd divides the product)
+        return a * b // cls.gcd(a, b)
 
     @staticmethod
     def get_unit(x):
